@@ -479,15 +479,8 @@ func (m *model) diagnose(e *Ev, ready map[string]*mstate) *modelFail {
 		f.what = fmt.Sprintf("app was given chunk %d; the queue model (lowest index not applied; RETRY / refetch / RETRY_SNAPSHOT honoured) allows only: %s", e.I, strings.Join(es, ", "))
 		return f
 	}
-	sent := false
-	for _, a := range m.arr {
-		if a.peer == e.P && a.i == e.I && a.b == e.B && a.start < e.N && e.P >= 0 {
-			sent = true
-		}
-	}
-	if !sent {
-		f.key = "chunk-not-sent-by-claimed-sender"
-		f.what = fmt.Sprintf("app was given chunk %d with sender %q and bytes %s, but that peer never sent these bytes for that index", e.I, e.Sender, e.B)
+	if k, w := provenance(m.arr, e); k != "" {
+		f.key, f.what = k, w
 		return f
 	}
 	f.key = "chunk-bytes-or-sender-not-as-recorded-at-arrival"
@@ -503,4 +496,25 @@ func uniq(ss []string) []string {
 		}
 	}
 	return out
+}
+
+// provenance is the order-independent part of "chunks reach the application with the bytes and
+// sender recorded at arrival": the sender named in the call must itself have delivered exactly
+// these bytes for that index of that snapshot before the call.  Returns "" if it has.
+func provenance(arr map[int]*arrival, e *Ev) (key, what string) {
+	var others []int
+	for _, a := range arr {
+		if a.i != e.I || a.h != e.H || a.f != e.F || a.b != e.B || a.start > e.N || a.miss {
+			continue
+		}
+		if a.peer == e.P && e.P >= 0 {
+			return "", ""
+		}
+		others = append(others, a.peer)
+	}
+	if len(others) > 0 {
+		sort.Ints(others)
+		return "chunk-bytes-of-other-sender-applied", fmt.Sprintf("app was given chunk %d with sender %q (peer %d) and bytes %s: that peer never delivered these bytes for that index; they are what peer(s) %v delivered", e.I, e.Sender, e.P, e.B, others)
+	}
+	return "chunk-bytes-match-no-delivery", fmt.Sprintf("app was given chunk %d with sender %q and bytes %s, which no peer delivered for that index (mixed or torn content)", e.I, e.Sender, e.B)
 }
